@@ -174,6 +174,8 @@ struct Walk<'t> {
     calls: &'t [&'static str],
     guard: Vec<String>,
     out: Vec<(String, String)>,
+    /// (call, memory ordering argument) for the recorded calls that take one
+    ords: Vec<(String, String)>,
 }
 
 fn compact<T: quote::ToTokens>(t: &T) -> String {
@@ -196,6 +198,12 @@ impl<'ast, 't> Visit<'ast> for Walk<'t> {
         let name = m.method.to_string();
         if self.calls.contains(&name.as_str()) {
             self.rec(&name);
+            if let Some(last) = m.args.last() {
+                let a = compact(last);
+                if a.starts_with("Ordering::") {
+                    self.ords.push((name.clone(), a));
+                }
+            }
         }
     }
 
@@ -321,7 +329,7 @@ pub fn generate(repo: &Path) -> Res<String> {
     for t in TARGETS {
         let file = parse_file(&repo.join(t.file))?;
         let f = find_fn(&file, t).ok_or(format!("{}: fn {}::{} not found", t.file, t.ty, t.func))?;
-        let mut w = Walk { calls: t.calls, guard: vec![], out: vec![] };
+        let mut w = Walk { calls: t.calls, guard: vec![], out: vec![], ords: vec![] };
         w.visit_block(&f.block);
         let n_calls = w.out.iter().filter(|(c, _)| c != "return" && c != "?").count();
         if n_calls == 0 {
@@ -333,6 +341,14 @@ pub fn generate(repo: &Path) -> Res<String> {
             writeln!(s, "  ({}, {}){}", lean_str(c), lean_str(g), if i + 1 < w.out.len() { "," } else { "" }).unwrap();
         }
         s.push_str("]\n\n");
+        if !w.ords.is_empty() {
+            writeln!(s, "/-- memory orderings written at the atomic calls of `{}::{}` -/", t.ty, t.func).unwrap();
+            writeln!(s, "def {}Ord : List (String × String) := [", t.lean).unwrap();
+            for (i, (c, o)) in w.ords.iter().enumerate() {
+                writeln!(s, "  ({}, {}){}", lean_str(c), lean_str(o), if i + 1 < w.ords.len() { "," } else { "" }).unwrap();
+            }
+            s.push_str("]\n\n");
+        }
     }
     s.push_str("end Compio.Gen.WakeOrder\n");
     Ok(s)
